@@ -272,7 +272,24 @@ def run_instance(args):
             conds = [(l, c, d) for (l, c, d) in ctx.requires]
             # one joint query first; split per label only when it fails
             joint = core.AND(*[c for _, c, _ in conds]) if conds else True
-            good, m = E.prove(joint)
+            try:
+                good, m = E.prove(joint)
+            except core.Inconclusive:
+                # the solver gave up on this path's obligation.  That never counts as a pass; but a harness may name concrete
+                # candidate inputs (e.g. the shipped parameter table) and if the REAL code fails an obligation on one of
+                # them, that is a replayed counterexample all the same.
+                hints = hmod.hint_inputs(ctx, params) if hasattr(hmod, 'hint_inputs') else []
+                for inputs in hints:
+                    inputs = {k: inputs.get(k, 1.0) for k in ctx.vars}
+                    fl, obs, err = run_real(hmod, params, ms_real, inputs, choices)
+                    core.set_engine(E)
+                    if fl and err != 'assumption-violated':
+                        if len(res['violations']) < max_viol:
+                            res['violations'].append(dict(label=fl[0][0], detail=_jsonable(fl[0][1]), sym_label='(solver unknown; hint witness)',
+                                                          inputs=inputs, choices=choices, labels=[x[0] for x in fl]))
+                        res['hint_witnesses'] = res.get('hint_witnesses', 0) + 1
+                        return False
+                raise
             if not good:
                 for (l, c, d) in conds:
                     g, m1 = E.prove(c)
@@ -321,6 +338,15 @@ def run_instance(args):
                 mism = [k for k in sym_obs if k in obs and not _same(_jsonable(sym_obs[k]), obs[k])]
                 if err == 'assumption-violated':
                     res['xval_thin'] += 1
+                elif fl and not thin and not err and opts.get('ieee_violations', True):
+                    # the path is proved over the reals, yet the IEEE execution of the REAL code on a witness that sits at least
+                    # 1e-6 inside every decided comparison fails an obligation: a concrete, replayed violation of the property
+                    # (rounding-dependent behaviour of the implementation), reported as such
+                    if len(res['violations']) < max_viol:
+                        res['violations'].append(dict(label=fl[0][0], detail=_jsonable(fl[0][1]),
+                                                      sym_label='(holds over the reals; fails in the IEEE execution of the robust witness)',
+                                                      inputs=inputs, choices=choices, labels=[x[0] for x in fl]))
+                    res['ieee_witnesses'] = res.get('ieee_witnesses', 0) + 1
                 elif fl or mism or err:
                     if thin:
                         res['xval_thin'] += 1
